@@ -68,7 +68,18 @@ func raceSignature(block string) (string, bool) {
 	parts := regexp.MustCompile(`(?m)^(Previous |)(read|write|Read|Write|atomic)[^\n]*by [^\n]*:$`).Split(block, -1)
 	var sig []string
 	for _, p := range parts[1:] {
-		if m := frameRe.FindStringSubmatch(p); m != nil {
+		var m []string
+		for _, cand := range frameRe.FindAllStringSubmatch(p, -1) {
+			if strings.Contains(cand[1], "/gabi/big.") {
+				continue // thin math/big wrappers: the caller is the informative frame
+			}
+			m = cand
+			break
+		}
+		if m == nil {
+			m = frameRe.FindStringSubmatch(p)
+		}
+		if m != nil {
 			fn := m[1]
 			fn = fn[strings.LastIndex(fn, "/")+1:]
 			sig = append(sig, fn+"@"+filepath.Base(m[2])+":"+m[3])
